@@ -181,7 +181,9 @@ def idle_body(ctx, c):
             ctx.label("precondition-not-met")
             return None
         by = None
-        if c.get("bystander"):
+        # the bystander runs with default client settings (keep-alive 0.1 s): it is only part of the scenario when the
+        # property's precondition (keep-alive < timeout, with room for spacing and delay) also holds for it
+        if c.get("bystander") and 0.1 + 2 * frame + 2 * tick + delay + 0.05 < s_ct:
             by = w.add_client(laddr=("10.0.4.4", 4444))
             by.connect()
             st_.run(1.0, until=lambda: by.connected() and by.laddr in w.ctxt.connections)
